@@ -257,6 +257,11 @@ impl MT107 {
             });
         }
 
+        // Verify all content is consumed
+
+        verify_parser_complete(&parser)?;
+
+
         Ok(Self {
             field_20,
             field_23e,
